@@ -9,4 +9,5 @@ open Emboss.Enum
 #print axioms C19_enumerators_counterexample
 #print axioms C19_enum_case_precedence
 #print axioms C19_field_accepts_in_range_partial
+#print axioms C19_field_signed_full_width_partial
 #print axioms C19_field_counterexample
